@@ -224,7 +224,7 @@ fn relations(tier: Tier) -> Vec<Rel> {
 fn main() {
     vh_core::engine::main(PropSpec {
         id: "C12",
-        rule: "Points of the whole curve: the first point with abscissa >= an arbitrary x (short Weierstrass) / ordinate >= an arbitrary y (twisted Edwards) - outside the prime-order subgroup with probability 1-1/h -, points of small prime order (r·h/l)·R for every prime l < 2000 dividing the cofactor, the cofactor-torsion component r·R, sums of a subgroup point and such a point, subgroup points s·G, G and the identity; toy curves: every point (membership) and every ordered pair (clearing). Oracles: membership <=> r·P = O with a right-to-left double-and-add over +/double (SW) or the affine Edwards-law oracle (TE), never mul_bigint; clear_cofactor(P) is on the curve, killed by r, accepted by the membership test, equals [c]P for the documented integer (COFACTOR by default; 1-x = RFC 9380 h_eff for BLS12-381 G1, x-1 for BLS12-377 G1, RFC 9380 h_eff for BLS12-381 G2, typed from the documents), is additive and commutes with scalars; mul_by_cofactor = [h]P; mul_by_cofactor_inv undoes mul_by_cofactor on the subgroup; COFACTOR·COFACTOR_INV = 1 mod r; clear_cofactor(G) != O; rand samples (StdRng seeded from the tape) are on the curve and killed by r. A case is non-trivial when the point is on the curve and outside the prime-order subgroup (constants / rand: when the cofactor is > 1); distinct = distinct decoded choice sequences.",
+        rule: "Curves: every shipped SW/TE configuration, the SWU-isogenous helper curves of bls12_381, bls12_377 and test-curves (WBConfig::IsogenousCurve) and toy curves. Points of the whole curve: the first point with abscissa >= an arbitrary x (short Weierstrass) / ordinate >= an arbitrary y (twisted Edwards) - outside the prime-order subgroup with probability 1-1/h -, points of small prime order (r·h/l)·R for every prime l < 2000 dividing the cofactor, the cofactor-torsion component r·R, sums of a subgroup point and such a point, subgroup points s·G, G and the identity; toy curves: every point (membership) and every ordered pair (clearing). Oracles: membership <=> r·P = O with a right-to-left double-and-add over +/double (SW) or the affine Edwards-law oracle (TE), never mul_bigint; clear_cofactor(P) is on the curve, killed by r, accepted by the membership test, equals [c]P for the documented integer (COFACTOR by default; 1-x = RFC 9380 h_eff for BLS12-381 G1, x-1 for BLS12-377 G1, RFC 9380 h_eff for BLS12-381 G2, typed from the documents), is additive and commutes with scalars; mul_by_cofactor = [h]P; mul_by_cofactor_inv undoes mul_by_cofactor on the subgroup; COFACTOR·COFACTOR_INV = 1 mod r; clear_cofactor(G) != O; rand samples (StdRng seeded from the tape) are on the curve and killed by r. A case is non-trivial when the point is on the curve and outside the prime-order subgroup (constants / rand: when the cofactor is > 1); distinct = distinct decoded choice sequences.",
         assumptions: &[
             "the group law (+, double, ==, into_affine) is correct on the inputs used (property C03); twisted-Edwards curves use the independent affine oracle instead",
             "get_point_from_x_unchecked / get_point_from_y_unchecked are only used as a point source; every generated point is re-checked against the curve equation by the harness",
